@@ -185,7 +185,7 @@ class World:
         with quiet():
             for name, real in self.namer.to_real.items():
                 if name.startswith("i"):
-                    hs = sorted(self.app.state_backend.get_history(real), key=lambda h: h.timestamp)
+                    hs = sorted(self.app.state_backend.get_history(real), key=lambda h: h.status_record.timestamp)
                     out[name] = [[h.status_record.status.value, h.runner_context_id or "none"] for h in hs]
         return out
 
